@@ -6,6 +6,7 @@ import (
 	"go/token"
 	"go/types"
 	"math/big"
+	"sort"
 	"strings"
 )
 
@@ -23,9 +24,9 @@ type SpecEnv struct {
 	depth     int
 	visited   *Value
 	exec      *Exec
-	lemma     bool // lemma mode: calls to contract functions apply their contracts
+	lemma     bool     // lemma mode: calls to contract functions apply their contracts
 	outer     *SpecEnv // the environment outside old(...), for now(...)
-	facts     *[]Term // type facts of heap values read while evaluating (outside quantifiers)
+	facts     *[]Term  // type facts of heap values read while evaluating (outside quantifiers)
 }
 
 type specError struct{ msg string }
@@ -511,6 +512,9 @@ func (e *SpecEnv) call(x *SCall) Value {
 				ref = e.vc.slRef(v.T)
 			}
 			return Value{T: tAnd(app("Bool", "<=", mathInt(0), ref), app("Bool", "<", ref, e.st.alloc)), Ty: types.Typ[types.Bool]}
+		case "zeroOf":
+			v := e.eval(x.Args[0])
+			return Value{T: e.vc.zero(v.Ty), Ty: v.Ty}
 		case "sameArray":
 			a, b := e.eval(x.Args[0]), e.eval(x.Args[1])
 			if a.T.Sort != "Slice" || b.T.Sort != "Slice" {
@@ -575,6 +579,18 @@ func (e *SpecEnv) call(x *SCall) Value {
 			}
 		}
 	}
+	// spec function of an imported package: pkg.name(args)
+	if sel, ok := x.Fun.(*SSel); ok {
+		if id, ok := sel.X.(*SIdent); ok {
+			if _, isVar := e.vars[id.Name]; !isVar {
+				if p := e.importedPkg(id.Name); p != nil && p.Contracts != nil {
+					if sf, ok := p.Contracts.SpecFuncs[sel.Sel]; ok {
+						return e.applySpecFunc(sf, p, x.Args)
+					}
+				}
+			}
+		}
+	}
 	// conversion
 	if ty, ok := e.tryType(x.Fun); ok && len(x.Args) == 1 {
 		v := e.eval(x.Args[0])
@@ -621,21 +637,136 @@ func (e *SpecEnv) findSpecFunc(name string) *specFuncRef {
 }
 
 func (e *SpecEnv) applySpecFunc(sf *SpecFunc, pkg *Pkg, args []SExpr) Value {
-	if e.depth > 40 {
-		e.fail("spec function recursion too deep (%s)", sf.Name)
+	if sf.Opaque && pkg != e.vc.pkg && !e.vc.revealAll {
+		return e.applyOpaque(sf, pkg, args)
 	}
+	return e.expandSpecFunc(sf, pkg, args)
+}
+
+// applyOpaque: outside its home package an opaque spec function is an
+// uninterpreted function of the heap variables its body reads and of its
+// arguments; clients reason about it only through contracts.
+func (e *SpecEnv) applyOpaque(sf *SpecFunc, pkg *Pkg, args []SExpr) Value {
+	if sf.Ret == nil {
+		e.fail("opaque spec func %s needs a result type", sf.Name)
+	}
+	// trial expansion to find the heap variables read
 	if len(args) != len(sf.Params) {
 		e.fail("spec func %s: %d args, want %d", sf.Name, len(args), len(sf.Params))
 	}
-	c := &SpecEnv{vc: e.vc, pkg: pkg, vars: map[string]Value{}, st: e.st, old: e.old, oldVars: e.oldVars, oldLookup: e.oldLookup,
-		tparams: e.tparams, allocOld: e.allocOld, depth: e.depth + 1, visited: e.visited, exec: e.exec}
+	argVals := make([]Value, len(args))
+	for i := range args {
+		argVals[i] = e.eval(args[i])
+	}
+	var sig []string
+	var sorts map[string]string
+	{
+		saved := e.vc.recording
+		e.vc.recording = map[string]string{}
+		func() {
+			trial := *e
+			trial.facts = nil
+			trial.expandSpecFuncVals(sf, pkg, argVals)
+		}()
+		sorts = e.vc.recording
+		e.vc.recording = saved
+		for n := range sorts {
+			sig = append(sig, n)
+		}
+		sortStrings(sig)
+		if e.vc.opaqueSorts == nil {
+			e.vc.opaqueSorts = map[string]string{}
+		}
+		for n, srt := range sorts {
+			e.vc.opaqueSorts[n] = srt
+		}
+	}
+	var ts []Term
+	var argSorts []string
+	for _, n := range sig {
+		h := e.vc.heap(e.st, n, e.vc.opaqueSorts[n])
+		ts = append(ts, h)
+		argSorts = append(argSorts, h.Sort)
+	}
+	// parameters (with the same typing rules as expansion)
+	c := &SpecEnv{vc: e.vc, pkg: pkg, vars: map[string]Value{}, st: e.st, tparams: e.tparams}
 	for i, p := range sf.Params {
-		v := e.eval(args[i])
+		v := argVals[i]
+		pt := c.resolveType(p.Type)
+		if isUninstantiatedGeneric(pt) {
+			gt, _ := deref(pt)
+			at, _ := deref(v.Ty)
+			if gn, ok := gt.(*types.Named); ok {
+				if an, ok := at.(*types.Named); ok && an.TypeArgs() != nil {
+					nt := map[string]types.Type{}
+					for k2, v2 := range c.tparams {
+						nt[k2] = v2
+					}
+					for j := 0; j < gn.TypeParams().Len() && j < an.TypeArgs().Len(); j++ {
+						nt[gn.TypeParams().At(j).Obj().Name()] = an.TypeArgs().At(j)
+					}
+					c.tparams = nt
+				}
+			}
+		} else if v.Fn == nil {
+			v = e.retypeTo(v, pt)
+			if bb, ok := v.Ty.(*types.Basic); ok && bb.Kind() == types.UntypedNil {
+				v = Value{T: e.vc.zero(pt), Ty: pt}
+			}
+		}
+		if v.Fn != nil {
+			e.fail("closure argument to opaque spec func")
+		}
+		ts = append(ts, v.T)
+		argSorts = append(argSorts, v.T.Sort)
+	}
+	rt := c.resolveType(sf.Ret)
+	sym := "spec!" + sanitize(pkg.Types.Name()+"."+sf.Name)
+	// instantiations with different sorts get different symbols
+	full := sym + "!" + strings.Join(sig, ",") + "!" + strings.Join(argSorts, "_")
+	sym = fmt.Sprintf("%s!h%x", sym, hashString(full))
+	e.vc.declareFun(sym, argSorts, e.vc.sortOf(rt))
+	return Value{T: app(e.vc.sortOf(rt), sym, ts...), Ty: rt}
+}
+
+func (e *SpecEnv) expandSpecFunc(sf *SpecFunc, pkg *Pkg, args []SExpr) Value {
+	if len(args) != len(sf.Params) {
+		e.fail("spec func %s: %d args, want %d", sf.Name, len(args), len(sf.Params))
+	}
+	vals := make([]Value, len(args))
+	for i := range args {
+		vals[i] = e.eval(args[i])
+	}
+	return e.expandSpecFuncVals(sf, pkg, vals)
+}
+
+func (e *SpecEnv) expandSpecFuncVals(sf *SpecFunc, pkg *Pkg, vals []Value) Value {
+	if e.depth > 40 {
+		e.fail("spec function recursion too deep (%s)", sf.Name)
+	}
+	c := &SpecEnv{vc: e.vc, pkg: pkg, vars: map[string]Value{}, st: e.st, old: e.old, oldVars: e.oldVars, oldLookup: e.oldLookup,
+		tparams: e.tparams, allocOld: e.allocOld, depth: e.depth + 1, visited: e.visited, exec: e.exec, facts: e.facts, outer: nil}
+	for i, p := range sf.Params {
+		v := vals[i]
 		pt := c.resolveType(p.Type)
 		if isUninstantiatedGeneric(pt) {
 			// generic parameter type written without type arguments: keep the
-			// argument's (instantiated) type
+			// argument's (instantiated) type and bind the type parameter names
 			c.vars[p.Name] = v
+			gt, _ := deref(pt)
+			at, _ := deref(v.Ty)
+			if gn, ok := gt.(*types.Named); ok {
+				if an, ok := at.(*types.Named); ok && an.TypeArgs() != nil {
+					nt := map[string]types.Type{}
+					for k2, v2 := range c.tparams {
+						nt[k2] = v2
+					}
+					for j := 0; j < gn.TypeParams().Len() && j < an.TypeArgs().Len(); j++ {
+						nt[gn.TypeParams().At(j).Obj().Name()] = an.TypeArgs().At(j)
+					}
+					c.tparams = nt
+				}
+			}
 			continue
 		}
 		if v.Fn == nil {
@@ -836,4 +967,15 @@ func isUninstantiatedGeneric(t types.Type) bool {
 		return false
 	}
 	return n.TypeParams() != nil && n.TypeParams().Len() > 0 && (n.TypeArgs() == nil || n.TypeArgs().Len() == 0)
+}
+
+func sortStrings(s []string) { sort.Strings(s) }
+
+func hashString(s string) uint32 {
+	var h uint32 = 2166136261
+	for i := 0; i < len(s); i++ {
+		h ^= uint32(s[i])
+		h *= 16777619
+	}
+	return h
 }
